@@ -65,9 +65,25 @@ POOL: List[J] = [
      "compu": {"cat": "IDENTICAL"},
      "dtcs": [{"name": "B2222", "code": 0x922222, "text": "own"}],
      "linked": [{"dop": "dtc", "not_inherited": ["P0123"]}]},
+    {"t": "DTCDOP", "name": "dtc_linked2", "dct": dct_std("A_UINT32", 24), "ptype": "A_UINT32",
+     "compu": {"cat": "IDENTICAL"},
+     "dtcs": [{"name": "C3333", "code": 0x433333, "text": "own2"}],
+     "linked": [{"dop": "dtc"}]},
+    # a diamond: both linked DTC-DOPs provide the DTCs of "dtc"
+    {"t": "DTCDOP", "name": "dtc_diamond", "dct": dct_std("A_UINT32", 24), "ptype": "A_UINT32",
+     "compu": {"cat": "IDENTICAL"}, "dtcs": [],
+     "linked": [{"dop": "dtc_linked"}, {"dop": "dtc_linked2"}]},
+    # a text table with a scale that covers a range and has no COMPU-INVERSE-VALUE (the lower
+    # limit is what gets encoded), one with an inverse value, and single values
+    dop("txtr", dct_std("A_UINT32", 8), "A_UNICODE2STRING",
+        {"cat": "TEXTTABLE", "i2p": {"scales": [
+            {"lo": (0, "CLOSED"), "hi": (0, "CLOSED"), "const": {"vt": "off"}},
+            {"lo": (10, "CLOSED"), "hi": (19, "CLOSED"), "const": {"vt": "warm"}},
+            {"lo": (20, "CLOSED"), "hi": (29, "CLOSED"), "const": {"vt": "hot"}, "inv": {"v": 25}},
+            {"lo": (200, "CLOSED"), "hi": (200, "CLOSED"), "const": {"vt": "max"}, "inv": {"v": 200}}]}}),
 ]
 FIXED_SIMPLE = ["u8", "u16", "u16le", "u24", "s8", "s16le", "f32", "b2", "b4", "a3", "w2", "lin8",
-                "linf", "txt", "bcd16", "dtc", "f64le", "dtc_linked", "tabi"]
+                "linf", "txt", "bcd16", "dtc", "f64le", "dtc_linked", "tabi", "dtc_diamond", "txtr"]
 BITS_SIMPLE = ["u4", "u3", "u1", "u12", "s12sm", "u8mask"]
 OPEN_SIMPLE = ["mmz", "mmf", "mmu", "ll8", "ll16s"]
 
@@ -75,11 +91,14 @@ OPEN_SIMPLE = ["mmz", "mmf", "mmu", "ll8", "ll16s"]
 def good_value(o: J, layer_by: Dict[str, J], r: random.Random, depth: int = 0) -> Any:
     t = o["t"]
     if t == "DTCDOP":
-        codes = [d["code"] for d in o["dtcs"]]
-        for ln in o.get("linked") or []:
-            codes += [d["code"] for d in layer_by[ln["dop"]]["dtcs"]
-                      if d["name"] not in (ln.get("not_inherited") or [])]
-        return r.choice(codes)
+        def entries(x: J, depth: int = 0) -> List[Tuple[str, int]]:
+            own = [(d["name"], d["code"]) for d in x["dtcs"]]
+            if depth < 5:
+                for ln in x.get("linked") or []:
+                    own += [(n, c) for n, c in entries(layer_by[ln["dop"]], depth + 1)
+                            if n not in (ln.get("not_inherited") or []) and n not in {a for a, _ in own}]
+            return own
+        return r.choice(sorted({c for _, c in entries(o)}))
     if t == "DOP":
         d = o["dct"]
         base = d["base"]
@@ -175,8 +194,11 @@ def good_params(params: List[J], layer_by: Dict[str, J], r: random.Random, depth
             tab = layer_by[kp["table"] if kp.get("table") else kp["row"][0]]
             row = r.choice(tab["rows"]) if not kp.get("row") else \
                 next(x for x in tab["rows"] if x["name"] == kp["row"][1])
-            tgt = layer_by[row.get("struct") or row["dop"]]
-            vals[p["name"]] = (row["name"], good_value(tgt, layer_by, r, depth))
+            if row.get("struct") is None and row.get("dop") is None:
+                vals[p["name"]] = (row["name"], None)   # a row that carries no data
+            else:
+                tgt = layer_by[row.get("struct") or row["dop"]]
+                vals[p["name"]] = (row["name"], good_value(tgt, layer_by, r, depth))
         elif k == "LENGTH-KEY":
             pass  # implicit by default; explicit variants are added by `assignments`
     # env-data-desc consistency: only parameters of the applicable env datas may be given
@@ -342,7 +364,8 @@ def probe_layer() -> J:
     dobjs.append({"t": "TABLE", "name": "tab", "key_dop": "u8", "semantic": "X",
                   "rows": [{"name": "r_struct", "key": 1, "struct": "st_c2"},
                            {"name": "r_dop", "key": 2, "dop": "u16"},
-                           {"name": "r_other", "key": 10, "struct": "st_c1"}]})
+                           {"name": "r_other", "key": 10, "struct": "st_c1"},
+                           {"name": "r_nodata", "key": 77}]})   # a row that carries no data
     rq("p_table", [sid(), {"p": "TABLE-KEY", "name": "tk", "byte": None, "bit": None, "table": "tab"},
                    {"p": "TABLE-STRUCT", "name": "ts", "byte": None, "bit": None, "key": "tk"}],
        "table-key-struct")
@@ -396,6 +419,15 @@ def probe_layer() -> J:
     rq("p_lenkey_items", [sid(), p_value("recs", "eop_lk")], "length-key-in-field-items")
     rq("p_lenkey_nested", [sid(), p_value("one", "st_lk"), p_value("after", "u8")],
        "length-key-in-structure")
+    dobjs.append(dop("pl_pos", dct_paramlen("A_BYTEFIELD", "LK.st_lkpos.lk")))
+    dobjs.append(_struct("st_lkpos", [{"p": "LENGTH-KEY", "name": "lk", "byte": 1, "bit": None,
+                                       "dop": "u8", "id": "LK.st_lkpos.lk"},
+                                      p_value("tag", "u8", byte=0), p_value("data", "pl_pos", byte=2)]))
+    rq("p_lenkey_positioned", [sid(), p_value("pre", "u16"), p_value("s", "st_lkpos")],
+       "length-key-positioned-in-structure")
+    dobjs.append({"t": "EOPFIELD", "name": "eop_lkpos", "struct": "st_lkpos", "min": None, "max": None})
+    rq("p_lenkey_positioned_items", [sid(), p_value("recs", "eop_lkpos")],
+       "length-key-positioned-in-field-items")
     # 9 DTC
     rq("p_dtc_linked", [sid(), p_value("code", "dtc_linked"), p_value("st", "u8")], "dtc-linked")
     # environment data inside repeated records: every record has its own DTC
